@@ -7,6 +7,7 @@ CONSTANTS
   NRandom = 12500
   BuildMax = 0
   BuildIds = {}
+  WithFamilies = FALSE
   StaticInit = TRUE
 INIT GInit
 NEXT GNext
